@@ -55,6 +55,7 @@ pub fn crashee_main(case_file: &str, root: &str, marker: &str, states: Option<&s
     let mut mk = std::fs::OpenOptions::new().create(true).append(true).open(marker).expect("marker");
     let mut st = states.map(|p| std::fs::OpenOptions::new().create(true).append(true).open(p).expect("states"));
     let o = Opts::default();
+    let tolerant = std::env::var("FJV_TOLERANT").is_ok();
     let mut w = World::new(Path::new(root), &case.cfg, &o);
     let res = std::panic::catch_unwind(std::panic::AssertUnwindSafe(|| -> Result<(), String> {
         w.start()?;
@@ -72,7 +73,9 @@ pub fn crashee_main(case_file: &str, root: &str, marker: &str, states: Option<&s
                 }
                 Err(e) => {
                     let _ = writeln!(mk, "E {i} {}", e.replace('\n', " "));
-                    return Err(e);
+                    if !tolerant {
+                        return Err(e);
+                    }
                 }
             }
             if let Some(f) = st.as_mut() {
